@@ -108,6 +108,29 @@ NumberCases == {C("number", <<t, g, d>>) : t \in NumTexts, g \in Seps, d \in Sep
                \cup {C("number", <<x, VNull, VNull>>) : x \in {VNull, VN(1, 0), VB(TRUE)}} \cup {C("number", <<VS(<<49>>)>>), C("number", <<VS(<<49>>), VNull>>)}
 ASSUME \A c \in NumberCases : PrintT(<<"CASE", ToJson(c)>>)
 
+\* sort(list, precedes): lists of numbers (with equal values of different scale), strings, contexts, mixed kinds, nulls
+CSort(args, cmp) == [fn |-> "sort", args |-> args, cmp |-> cmp]
+SNums == {VN(1, 0), VN(2, 0), VN(20, 0 - 1), VN(3, 0), VN(0 - 1, 0), VN(15, 0 - 1)}
+SortNumLists == {VL(<<>>)} \cup {VL(<<a>>) : a \in SNums} \cup {VL(<<a, b>>) : a \in SNums, b \in SNums} \cup {VL(<<a, b, c>>) : a \in SNums, b \in SNums, c \in {VN(2, 0), VN(0 - 1, 0), VN(3, 0)}}
+                \cup {VL(<<VN(3, 0), VN(1, 0), VN(2, 0), VN(0 - 1, 0)>>), VL(<<VN(1, 0), VN(2, 0), VN(3, 0), VN(4, 0), VN(5, 0)>>), VL(<<VN(5, 0), VN(4, 0), VN(3, 0), VN(2, 0), VN(1, 0)>>),
+                      VL(<<VN(2, 0), VN(1, 0), VN(2, 0), VN(1, 0), VN(2, 0), VN(1, 0)>>)}
+SStrs == {VS(<<>>), VS(<<97>>), VS(<<98>>), VS(<<97, 98>>), VS(<<233>>), VS(<<66>>)}
+SortStrLists == {VL(<<a, b>>) : a \in SStrs, b \in SStrs} \cup {VL(<<VS(<<98>>), VS(<<97, 98>>), VS(<<>>), VS(<<97>>)>>)}
+KeyCtx(a, b) == VC(<<[n |-> "a", nc |-> <<97>>, v |-> a], [n |-> "b", nc |-> <<98>>, v |-> b]>>)
+SortCtxLists == {VL(<<KeyCtx(VN(2, 0), VN(1, 0)), KeyCtx(VN(1, 0), VN(2, 0)), KeyCtx(VN(2, 0), VN(0, 0))>>), VL(<<KeyCtx(VN(3, 0), VN(1, 0)), KeyCtx(VN(1, 0), VN(1, 0))>>),
+                 VL(<<KeyCtx(VS(<<98>>), VN(1, 0)), KeyCtx(VS(<<97>>), VN(2, 0))>>), VL(<<KeyCtx(VN(1, 0), VN(1, 0)), VC(<<>>)>>), VL(<<KeyCtx(VN(1, 0), VN(1, 0)), VN(1, 0)>>)}
+SortOdd == {VL(<<VN(3, 0), VS(<<97>>), VN(1, 0)>>), VL(<<VN(3, 0), VNull, VN(1, 0)>>), VL(<<VL(<<VN(2, 0)>>), VL(<<VN(1, 0)>>)>>), VL(<<VB(TRUE), VB(FALSE)>>)}
+SortCases ==
+  {CSort(<<l, VNull>>, c) : l \in SortNumLists \cup SortStrLists \cup SortOdd, c \in {"lt", "gt", "le", "ge"}}
+  \cup {CSort(<<l, VNull>>, "a-lt") : l \in SortCtxLists \cup {VL(<<>>), VL(<<VN(1, 0), VN(2, 0)>>)}}
+  \cup {CSort(<<l, VNull>>, c) : l \in {VL(<<VN(3, 0), VN(1, 0), VN(2, 0)>>), VL(<<>>), VL(<<VN(1, 0)>>)}, c \in {"null", "const", "arity1", "arity3"}}
+  \cup {CSort(<<l, VN(5, 0)>>, "notfn") : l \in {VL(<<VN(3, 0), VN(1, 0)>>), VL(<<>>)}}
+  \cup {CSort(<<l>>, "none") : l \in {VL(<<VN(3, 0), VN(1, 0)>>), VL(<<>>), VNull}}
+  \cup {CSort(<<x, VNull>>, "lt") : x \in {VNull, VN(1, 0), VS(<<97>>)}}
+  \cup {CSort(<<VL(<<VN(2, 0), VN(1, 0)>>), VNull, VN(1, 0)>>, "lt")}
+ASSUME \A c \in SortCases : PrintT(<<"CASE", ToJson(c)>>)
+ASSUME PrintT(<<"SCOUNT", Cardinality(SortCases)>>)
+
 ASSUME \A c \in Cases : PrintT(<<"CASE", ToJson(c)>>)
 ASSUME PrintT(<<"COUNT", Cardinality(Cases)>>)
 VARIABLE v
